@@ -194,6 +194,12 @@ pub enum Trig {
     DeadBytes,
     Frag,
     Both,
+    /// dead bytes exactly EQUAL to the trigger at every tick: "exceeds" is strict, no merge may run
+    DeadEq,
+    /// fragmentation exactly equal to the trigger
+    FragEq,
+    /// dead-bytes trigger 0 and no dead bytes at all (only distinct keys written)
+    ZeroNoDead,
 }
 #[derive(Clone, Copy, Debug, PartialEq, Eq)]
 pub enum SyncS {
@@ -221,7 +227,7 @@ impl C18Case {
     fn from_json(v: &Value) -> Option<C18Case> {
         Some(C18Case {
             policy: match v["policy"].as_str()? { "Never" => Policy::Never, "Always" => Policy::Always, "WindowIn" => Policy::WindowIn, _ => Policy::WindowOut },
-            trig: match v["trigger"].as_str()? { "None" => Trig::None, "DeadBytes" => Trig::DeadBytes, "Frag" => Trig::Frag, _ => Trig::Both },
+            trig: match v["trigger"].as_str()? { "None" => Trig::None, "DeadBytes" => Trig::DeadBytes, "Frag" => Trig::Frag, "DeadEq" => Trig::DeadEq, "FragEq" => Trig::FragEq, "ZeroNoDead" => Trig::ZeroNoDead, _ => Trig::Both },
             k: v["k"].as_u64()? as usize,
             interval_ms: v["interval_ms"].as_u64()?,
             jitter: v["jitter"].as_f64()?,
@@ -257,6 +263,10 @@ pub fn c18_case(dir: &Path, c: &C18Case) -> Result<String, V> {
         Trig::None | Trig::Both => (DEAD_TRIGGER, FRAG_TRIGGER),
         Trig::DeadBytes => (DEAD_TRIGGER, 1.0),
         Trig::Frag => (u64::MAX, FRAG_TRIGGER),
+        // after the initial two writes of k: 27 dead bytes, fragmentation 1/2
+        Trig::DeadEq => (27, 1.0),
+        Trig::FragEq => (u64::MAX, 0.5),
+        Trig::ZeroNoDead => (0, 1.0),
     };
     conf.merge_trigger_dead_bytes(dt).merge_trigger_fragmentation(ft);
     conf.merge_policy(match c.policy {
@@ -279,7 +289,11 @@ pub fn c18_case(dir: &Path, c: &C18Case) -> Result<String, V> {
     let res = (|| -> Result<String, V> {
         // some data below every trigger: one live key, one overwrite (27 dead bytes, fragmentation 0.5)
         h.set(b("k"), b("v")).map_err(|e| mach(e.to_string()))?;
-        h.set(b("k"), b("v")).map_err(|e| mach(e.to_string()))?;
+        if c.trig == Trig::ZeroNoDead {
+            h.set(b("j"), b("v")).map_err(|e| mach(e.to_string()))?;
+        } else {
+            h.set(b("k"), b("v")).map_err(|e| mach(e.to_string()))?;
+        }
         let allowed = matches!(c.policy, Policy::Always | Policy::WindowIn);
         let mut tick_times: Vec<i64> = vec![];
         let mut merges_seen_at: Vec<usize> = vec![];
@@ -304,7 +318,7 @@ pub fn c18_case(dir: &Path, c: &C18Case) -> Result<String, V> {
                     return Err(mach(format!("held at {}", at)));
                 }
                 tick_times.push(iohook::vnow_ms());
-                if tick == c.k && c.trig != Trig::None {
+                if tick == c.k && matches!(c.trig, Trig::DeadBytes | Trig::Frag | Trig::Both) {
                     // cross the trigger now: two more overwrites -> 81 dead bytes, fragmentation 0.75
                     h.set(b("k"), b("v")).map_err(|e| mach(e.to_string()))?;
                     h.set(b("k"), b("v")).map_err(|e| mach(e.to_string()))?;
@@ -354,11 +368,14 @@ pub fn c18_case(dir: &Path, c: &C18Case) -> Result<String, V> {
         // tick spacing within interval * (1 +- jitter)
         let lo = c.interval_ms as f64 * (1.0 - c.jitter);
         let hi = c.interval_ms as f64 * (1.0 + c.jitter);
-        let slack = 0.01 * c.interval_ms as f64 + 60.0; // 1 % + real time spent at the gates / in a merge
+        // measured on the worker's own clock (real elapsed + virtual offset): a sleep can never be
+        // shorter than asked (2 ms timer granularity); above, 1 % + real time spent at the gates, in a
+        // merge, or waiting for a CPU on a loaded machine
+        let slack = 0.01 * c.interval_ms as f64 + 500.0;
         let mut prev = 0i64;
         for (i, t) in tick_times.iter().enumerate() {
             let d = (*t - prev) as f64;
-            if d < lo - slack.min(lo) - 2.0 || d > hi + slack {
+            if d < lo - 2.0 || d > hi + slack {
                 return Err(("tick-spacing-outside-interval-plus-minus-jitter".into(), format!("tick {} came {} ms (virtual) after the previous one; allowed [{:.0}, {:.0}] +- slack; ticks at {:?}", i + 1, d, lo, hi, tick_times)));
             }
             prev = *t;
@@ -381,10 +398,10 @@ pub fn c18_case(dir: &Path, c: &C18Case) -> Result<String, V> {
             }
             let end = iohook::vnow_ms();
             let mut last = 0i64;
-            let slack = 0.01 * d as f64 + 80.0;
+            let slack = 0.01 * d as f64 + 500.0;
             for t in fsyncs.iter().chain(std::iter::once(&end)) {
                 if (*t - last) as f64 > d as f64 + slack {
-                    return Err(("interval-sync-gap-too-long".into(), format!("no fsync of a data file between virtual {} ms and {} ms although sync interval is {} ms; fsyncs at {:?}", last, t, d, &fsyncs[..fsyncs.len().min(12)])));
+                    return Err(("interval-sync-gap-too-long".into(), format!("no fsync of a data file between virtual {} ms and {} ms although sync interval is {} ms; fsyncs at {:?}", last, t, d, &fsyncs[fsyncs.len().saturating_sub(14)..])));
                 }
                 last = *t;
             }
@@ -425,8 +442,8 @@ fn c18_cases(tier: Tier) -> Vec<C18Case> {
     let intervals: Vec<u64> = vec![1, 1000, 18_000, 180_000, 3_600_000];
     let jitters = [0.0, 0.3, 1.0];
     for policy in [Policy::Never, Policy::Always, Policy::WindowIn, Policy::WindowOut] {
-        for trig in [Trig::None, Trig::DeadBytes, Trig::Frag, Trig::Both] {
-            let ks: Vec<usize> = if trig == Trig::None || policy == Policy::Never { vec![1] } else { vec![1, 2, 3] };
+        for trig in [Trig::None, Trig::DeadBytes, Trig::Frag, Trig::Both, Trig::DeadEq, Trig::FragEq, Trig::ZeroNoDead] {
+            let ks: Vec<usize> = if matches!(trig, Trig::None | Trig::DeadEq | Trig::FragEq | Trig::ZeroNoDead) || policy == Policy::Never { vec![1] } else { vec![1, 2, 3] };
             for k in ks {
                 for &interval_ms in &intervals {
                     for jitter in jitters {
@@ -884,7 +901,7 @@ pub fn report_meta(prop: &str, tier: Tier) -> (String, Value, Vec<String>) {
         "C18" => {
             let n = c18_cases(tier).len();
             (
-                format!("exhaustive configuration grid in virtual time ({} configurations): merge policy {{never, always, window containing now, window excluding now}} x trigger crossing {{none, dead bytes, fragmentation, both}} placed while the worker is held at tick k in {{1, 2, 3}} x check interval {{1 ms, 1 s, 18 s, 3 min, 1 h}} x jitter {{0, 0.3, 1}} x sync {{none, always, interval = interval/3{}}}, horizon {} ticks, plus interval sync alone at 1 ms / 500 ms / 10 min. At EVERY tick (worker held at the hook point after its sleep): tick spacing inside interval*(1 +- jitter); the implementation's trigger predicate equals a reference predicate on the counters; a merge starts at exactly the first tick at which the predicate holds and the policy allows, and at no other tick; with interval sync consecutive fsyncs of a data file are at most one interval apart in virtual time and stop after the drop.", n, tier.pick("", ", 2 x interval"), tier.pick(5, 10)),
+                format!("exhaustive configuration grid in virtual time ({} configurations): merge policy {{never, always, window containing now, window excluding now}} x trigger situation {{none crossed, dead bytes crossed, fragmentation crossed, both (each placed while the worker is held at tick k in 1..3), dead bytes exactly equal to the trigger, fragmentation exactly equal to the trigger, trigger 0 with no dead bytes}} x check interval {{1 ms, 1 s, 18 s, 3 min, 1 h}} x jitter {{0, 0.3, 1}} x sync {{none, always, interval = interval/3{}}}, horizon {} ticks, plus interval sync alone at 1 ms / 500 ms / 10 min. At EVERY tick (worker held at the hook point after its sleep): tick spacing inside interval*(1 +- jitter); the implementation's trigger predicate equals a reference predicate on the counters; a merge starts at exactly the first tick at which the predicate holds and the policy allows, and at no other tick; with interval sync consecutive fsyncs of a data file are at most one interval apart in virtual time and stop after the drop.", n, tier.pick("", ", 2 x interval"), tier.pick(5, 10)),
                 json!({"configurations": n, "horizon_ticks": tier.pick(5, 10)}),
                 assumptions,
             )
